@@ -361,6 +361,11 @@ func checkC03(c *Ctx) {
 				}
 				if isExtractOfID(a.Sym[sym], acPkg+".PaddingBytes", 1) {
 					hasPad = true
+				} else if op := remOperand(a.Sym[sym], 0); op != nil {
+					// a pad length computed in place: judged by value per residue modulo 8
+					if vals, okV := c.padFunction(a.Sym[sym], func(v ssa.Value) bool { return v == op }); okV && vals == [8]int64{0, 7, 6, 5, 4, 3, 2, 1} {
+						hasPad = true
+					}
 				}
 			}
 			if hasRest && hasPad {
